@@ -8,15 +8,18 @@ package absnfs
 //@ ghost handlerCalls int
 
 //@ func NFSProcedureHandler.HandleCall$1
-//@ prop C16 C09
+//@ prop C16 C09 C08
 //@ abstract
 // the goroutine OWNS the policy read lock taken by HandleCall (ownership transfer at the go statement):
 // it is entered with the lock read-held and releases it exactly once on every path, after the handler ran
 //@ requires handler != nil && h != nil && h.server != nil && call != nil && reply != nil && held(handler.policyRWMu) == 1
-//@ modifies everything, handlerCalls, locks
+//@ requires srvOK(h) && handler == h.server.handler && authCtx != nil
+//@ modifies everything, allghosts - atomicptr - lsncfg - poolsrc, locks, once
 //@ atreturn set handlerCalls = handlerCalls + 1
 //@ ensures [counts] handlerCalls == old(handlerCalls) + 1
 //@ ensures [released-once] held(old(handler).policyRWMu) == 0
+// C08: whichever program and procedure is dispatched, a read-only export sees no modifying backend operation
+//@ ensures [ro-no-backend-mutation] {C08} old(curPolicy(handler).ReadOnly) ==> mutlog == old(mutlog)
 // the procedure handlers run while the read lock is still held
 //@ callassert NFSProcedureHandler.handleNFSCall : [handler-under-lock] held(handler.policyRWMu) == 1
 //@ callassert NFSProcedureHandler.handleMountCall : [handler-under-lock] held(handler.policyRWMu) == 1
@@ -28,7 +31,7 @@ package absnfs
 //@ ensures [snapshot] result != nil && fresh(result) && result.Tuning == curTuning(n) && result.Policy == curPolicy(n)
 
 //@ func NFSProcedureHandler.HandleCall
-//@ prop C09 C14 C16
+//@ prop C09 C14 C16 C08
 //@ requires srvOK(h) && call != nil && authCtx != nil && authCtx.Credential != nil && curTuning(h.server.handler).Timeouts != nil
 // a rejected request reaches no procedure handler (and so no backend call): the dispatch goroutine is
 // spawned only on the path where authentication allowed the request
@@ -37,6 +40,8 @@ package absnfs
 //@ ensures [own-replies-echo-xid] handlerCalls == old(handlerCalls) && result0 != nil ==> result0.Header.Xid == call.Header.Xid && result0.Header == call.Header
 //@ ensures [denied-or-drain] handlerCalls == old(handlerCalls) && result0 != nil ==> result0.Status == 1 || (result0.Status == 0 && result0.AcceptStatus == 0)
 //@ ensures [reply-or-error] isnil(result1) ==> result0 != nil || handlerCalls != old(handlerCalls)
+// C08: a request, admitted or not, issues no modifying backend operation while the export is read-only
+//@ ensures [ro-no-backend-mutation] {C08} old(curPolicy(h.server.handler).ReadOnly) ==> mutlog == old(mutlog)
 // lock discipline (C16): a request refused at admission holds nothing afterwards; an admitted request's
 // read lock has been handed to (and, in the sequential abstraction of the spawn, released by) the goroutine
 //@ ensures [no-lock-leak] held(old(h.server.handler).policyRWMu) == 0
